@@ -1,6 +1,7 @@
 import Driver.FlowMon
 import OidcModel.Model.Flow
 import Driver.C07Wire
+import OidcModel.Model.FlowC04X
 open Kv Drv
 
 namespace Drv.Flow
@@ -8,6 +9,7 @@ namespace Drv.Flow
 structure ModSt where
   st : _root_.Flow.St := {}
   router : _root_.Flow.Router := .provider
+  pending : String := ""      -- deep3-C04: the model's answer to the second request of a concurrent pair (computed at the first line)
   deriving Inhabited
 
 structure FullSt where
@@ -49,6 +51,18 @@ def showObs (l : Line) : String :=
   | _, "err" => "err:" ++ str l "o.err"
   | _, x => x
 
+/-- deep3-C04: the second request of a concurrent pair (keys `c2.*` of the pair's first line; assertion clients do not race) -/
+def accessReq2 (l : Line) : AccessTokenRequest :=
+  { Code := str l "c2.code", RedirectURI := str l "c2.redirect", ClientID := str l "c2.cid", ClientSecret := str l "c2.secret",
+    CodeVerifier := str l "c2.verifier" }
+
+/-- deep3-C04: the storage call at which the harness injected a fault (`fault.at`) -/
+def faultOfLine (l : Line) : FlowX.FaultAt :=
+  let at' := str l "fault.at"
+  if at' == "createTokens" then .createTokens
+  else if at'.startsWith "in:" then .issuing (String.ofList (at'.toList.drop 3))
+  else .validation at'
+
 def modelStep (m : ModSt) (l : Line) (now : Int) : ModSt × String :=
   match str l "op" with
   | "reset" =>
@@ -79,6 +93,19 @@ def modelStep (m : ModSt) (l : Line) (now : Int) : ModSt × String :=
     ({ m with st := _root_.Flow.reRegister m.st (parseClient l "cl.0.") }, "done")
   | "exchange" =>
     if has l "w.body" then let (s, o) := Wire.modelToken now m.st m.router l; ({ m with st := s }, o) else   -- deep3-C07: the request as it travelled
+    -- deep3-C04: a fault at the k-th storage call / a concurrent pair (Model/FlowC04X.lean); every other line goes the old way
+    if has l "fault.at" then
+      let (s, o) := FlowX.stepFault now m.st m.router (accessReq l) (str l "auth" == "assertion") (faultOfLine l)
+      -- a failing read of the validation phase: the model fixes THAT the request is refused; the error code is compared for
+      -- the calls the property theorems name, and by class for the others
+      ({ m with st := s }, showOut o)
+    else if bool l "conc.second" then ({ m with pending := "" }, m.pending)
+    else if has l "conc" then
+      let sched := (list l "conc.sched").map (· == "A")
+      let (s, oA, oB, order) := FlowX.stepConc now m.st m.router (bool l "conc.strict") (accessReq l) false (accessReq2 l) false sched
+      -- this line is the request that finished first in reality: the model must agree on who finishes first
+      ({ m with st := s, pending := showOut oB }, showOut oA ++ (if order.head? == some true then "" else "!order"))
+    else
     let op := if bool l "fault.delete" then _root_.Flow.Op.exchangeDeleteFails m.router (accessReq l) (str l "auth" == "assertion")
               else .exchange m.router (accessReq l) (str l "auth" == "assertion")
     let (s, o) := _root_.Flow.step now m.st op
